@@ -326,6 +326,8 @@ class Facts:
         # a pinned private function that merely *moved* (same name; its old path is gone: free function -> trait method, method of another
         # type, other module) is not a new helper: the rules that name it still mean this function, and it is not looked through
         ident = base.rsplit("::", 1)[-1]
+        if ident not in MOVED_ATOMS:
+            return True
         moved = self.__dict__.setdefault("_moved_cache", {})
         if ident not in moved:
             old = [k for k in _KNOWN if k.rsplit("::", 1)[-1] == ident]
@@ -385,6 +387,11 @@ class Facts:
         if "bytes" not in c:
             raise MissingAnchor("const %s has no byte image" % npath)
         return bytes(c["bytes"])
+
+
+# private functions that the rules treat as *atoms* of a decision table (recognised by their name wherever they live): when such a
+# function merely moved (free function -> trait method, other type, other module) it must not be looked through like a new helper
+MOVED_ATOMS = {"cmp_input_streams"}
 
 
 class MissingAnchor(Exception):
